@@ -3,7 +3,6 @@ package rules
 import (
 	"go/token"
 	"go/types"
-	"strings"
 
 	"golang.org/x/tools/go/ssa"
 
@@ -460,9 +459,47 @@ func checkC15(c *Ctx) {
 	// ---- R-result-identity
 	respT := c.P.RootNamed("JSONRPCResponse")
 	nRes := 0
+	belowEntry := c.Reach(entry)
+	callsEntry := func(fn *ssa.Function) bool {
+		found := false
+		ir.EachCall(fn, func(call ssa.CallInstruction) {
+			for _, cal := range ir.Callees(c.G, call) {
+				if cal == entry {
+					found = true
+				}
+			}
+		})
+		return found
+	}
+	var applicable func(fn *ssa.Function, v ssa.Value, d int) bool
+	applicable = func(fn *ssa.Function, v ssa.Value, d int) bool {
+		if callsEntry(fn) {
+			return true
+		}
+		p, ok := ir.Unwrap(v).(*ssa.Parameter)
+		if !ok || d > 3 {
+			return false
+		}
+		idx := -1
+		for i, q := range fn.Params {
+			if q == p {
+				idx = i
+			}
+		}
+		for _, e := range ir.Callers(c.G, fn) {
+			if e.Site == nil || !c.P.IsLib(e.Caller.Func) || idx < 0 || idx >= len(e.Site.Common().Args) {
+				continue
+			}
+			if applicable(e.Caller.Func, e.Site.Common().Args[idx], d+1) {
+				return true
+			}
+		}
+		return false
+	}
 	for _, fn := range c.P.LibFns {
-		file := c.P.File(fn.Pos())
-		if strings.Contains(file, "client") || strings.HasPrefix(file, "transport_") || strings.HasPrefix(file, "stdio") || strings.HasPrefix(file, "jsonrpc") || strings.HasPrefix(file, "mcp_") {
+		// transport-level code only: not the client half, and not code the request entry itself reaches (managers
+		// and the response constructors they use build results, they do not forward the entry's)
+		if clientSide(c, fn) || belowEntry[fn] {
 			continue
 		}
 		ir.EachInstr(fn, func(_ *ssa.BasicBlock, _ int, in ssa.Instruction) {
@@ -503,6 +540,9 @@ func checkC15(c *Ctx) {
 						if e.Site == nil || !c.P.IsLib(e.Caller.Func) || idx >= len(e.Site.Common().Args) {
 							continue
 						}
+						if !applicable(e.Caller.Func, e.Site.Common().Args[idx], d+1) {
+							continue
+						}
 						if !fromEntry(e.Caller.Func, e.Site.Common().Args[idx], d+1) {
 							return false
 						}
@@ -511,6 +551,10 @@ func checkC15(c *Ctx) {
 					return all
 				}
 				return false
+			}
+			if !applicable(fn, st.Val, 0) {
+				nRes--
+				return // this function does not forward the request entry's result (it builds its own answer)
 			}
 			okID = fromEntry(fn, st.Val, 0)
 			c.R.Check(okID, "R-result-identity", "response result in "+fname(fn), c.Pos(st.Pos()), "the response's result is the value the request entry returned",
